@@ -39,10 +39,12 @@ def make_case(rng, i):
     steps = []
     kinds = set()
     pre = rng.random() < 0.0
-    if rng.random() < 0.25:
+    if rng.random() < 0.35:
         v = rng.choice([0, 3, 3])
-        steps.append({"op": "other", "action": "define_same_name", "variant": v, "events": [rng.choice(spec["events"]) for _ in range(2)]})
-        kinds.add(("same-name-class-defined-first", v))
+        drop = rng.random() < 0.5
+        steps.append({"op": "other", "action": "define_same_name", "variant": v, "drop": drop,
+                      "events": [rng.choice(spec["events"]) for _ in range(2)]})
+        kinds.add(("same-name-class-defined-first", v, "dropped-and-collected" if drop else "kept"))
     steps.append({"op": "construct", "val": gen.gen_valuation(rng, spec)})
     if spec["any_async"]:
         steps.append({"op": "activate"})
